@@ -329,10 +329,27 @@ def json_corruptions(data):
     def ser(d):
         return json.dumps(d).encode('utf-8')
     root_uuid = doc.get('uuid') if isinstance(doc, dict) else None
+    # the fragment of a Thing of this document (a well-formed reference of the WRONG type for every Node-typed
+    # feature), as pyecore writes fragments: its uuid, or the containment path from its root
     thing_ref = None
     for path, v in nodes(doc):
-        if isinstance(v, dict) and str(v.get('eClass', '')).endswith('#//Thing') and '$ref' in v:
-            thing_ref = v['$ref']
+        if path and isinstance(path[-1], int) and len(path) >= 2 and path[-2] == 'things' and isinstance(v, dict):
+            if 'uuid' in v:
+                thing_ref = v['uuid']
+            else:
+                segs, i, p = [], 0, list(path)
+                root = ''
+                if isinstance(doc, list):
+                    root, p = '/%d' % p[0], p[1:]
+                while i < len(p):
+                    if i + 1 < len(p) and isinstance(p[i + 1], int):
+                        segs.append('@%s.%d' % (p[i], p[i + 1]))
+                        i += 2
+                    else:
+                        segs.append('@%s' % p[i])
+                        i += 1
+                thing_ref = (root or '/') + '/' + '/'.join(segs)
+            break
     allnodes = list(nodes(doc))
     for path, v in allnodes:
         where = '/'.join(map(str, path)) or '<root>'
@@ -373,11 +390,19 @@ def json_corruptions(data):
                 bads = ['//@kids.99', '//@nosuch.0', 'no-such-id', 'missing.json#/', '//@kids.Spezial', '//sub/@kids.0']
                 if base:
                     bads += [base + '#//@kids.99', base + '#no-such-id', base]
-                if thing_ref and thing_ref != v:
-                    bads.append(thing_ref)
-                for bad in bads:
-                    yield ('retarget-ref' if bad == thing_ref else 'break-href' if '#' in bad or bad == base else 'break-ref'), \
-                        f'$ref at {where} = {bad}', ser(edit(path, lambda p, key, d, bad=bad: p.__setitem__(key, bad)))
+                # a reference into the same document may be spelled with a leading '#' (legal, not what pyecore
+                # writes): every local variant in both spellings
+                bads += ['#' + b for b in bads if '#' not in b and not b.endswith('.json')]
+                retargets = [thing_ref, '#' + thing_ref] if thing_ref and thing_ref != v \
+                    and not str(path[-2] if len(path) > 1 else '') == 'holder' else []
+                for bad in bads + retargets:
+                    kind_ = 'retarget-ref' if bad in retargets else \
+                        'break-ref' if bad.startswith('#') or '#' not in bad and bad != base else 'break-href'
+                    yield kind_, f'$ref at {where} = {bad}', \
+                        ser(edit(path, lambda p, key, d, bad=bad: p.__setitem__(key, bad)))
+                if '#' not in v:
+                    yield 'respell-ref', f"$ref at {where} spelled '#{v}'", \
+                        ser(edit(path, lambda p, key, d: p.__setitem__(key, '#' + v)))
             if k == 'uuid' and root_uuid is not None and len(path) > 1:
                 yield 'dup-id', f'uuid at {where} = uuid of the root', \
                     ser(edit(path, lambda p, key, d: p.__setitem__(key, root_uuid)))
@@ -678,6 +703,7 @@ class Env:
         self.d, self.fmt, self.files, self.mm = d, fmt, files, mm
         self.register_mm = register_mm  # False: the metamodel is reachable only through the documents themselves
         self.probes = probes or {}      # name -> bytes: documents that must be answered as in a fresh ResourceSet
+        self.asks = 0                   # rotates the spellings used for the two asks of an attempt
         self.baselines = {}
         self.restore = {}       # documents to put back intact before the follow-up reload
         for k, v in files.items():
@@ -686,6 +712,26 @@ class Env:
 
     def path(self, name):
         return os.path.join(self.d, name)
+
+
+SPELLINGS = ['canonical', 'dotdot', 'double-slash', 'dot', 'relative']
+# pairs (first ask, second ask): the same non-canonical spelling twice, two different ones, canonical first or last
+SPELLING_PAIRS = [(0, 0), (1, 1), (0, 1), (2, 0), (1, 2), (4, 3), (3, 4), (0, 0)]
+
+
+def spelled(env, name, how):
+    """Another spelling of the path of document `name`; every spelling normalises to the same absolute path."""
+    d = env.d
+    if how == 1:
+        os.makedirs(os.path.join(d, 'sub'), exist_ok=True)
+        return os.path.join(d, 'sub', '..', name)
+    if how == 2:
+        return d + os.sep + os.sep + name
+    if how == 3:
+        return os.path.join(d, '.', name)
+    if how == 4:
+        return os.path.relpath(os.path.join(d, name))
+    return os.path.join(d, name)
 
 
 def new_rset(env):
@@ -950,14 +996,18 @@ def _attempt(env, target, priors, timeout, model, follow=False, restore=None):
     n_roots_before = len(rs.trace_roots)
     probs = res['problems']
 
-    def ask():
+    env.asks += 1
+    sp1, sp2 = SPELLING_PAIRS[env.asks % len(SPELLING_PAIRS)]
+    res['spellings'] = (SPELLINGS[sp1], SPELLINGS[sp2])
+
+    def ask(how=0):
         try:
-            return ('returned', watchdog(lambda: rs.get_resource(URI(env.path(target))), timeout))
+            return ('returned', watchdog(lambda: rs.get_resource(URI(spelled(env, target, how))), timeout))
         except Hang:
             return ('hang', None)
         except Exception as e:
             return ('raised', type(e).__name__)
-    out1, val1 = ask()
+    out1, val1 = ask(sp1)
     after1 = snapshot(rs)
     res['outcome'] = out1
     if out1 == 'hang':
@@ -997,14 +1047,26 @@ def _attempt(env, target, priors, timeout, model, follow=False, restore=None):
             probs.append(('registry-changed', 'the returned resource is not registered under its normalised URI'))
         if not same_items(before['resources'], after1['resources'][:len(before['resources'])]):
             probs.append(('registry-changed', 'an earlier entry of rset.resources changed'))
-    # asking again
-    out2, val2 = ask()
+    # asking again, possibly under another spelling of the same path; a document that LOADED may have been
+    # truncated in between: the registered resource is the answer, the file is not read again
+    truncated = out1 == 'returned' and env.asks % 2 == 0
+    if truncated:
+        with open(env.path(target), 'rb') as f:
+            whole = f.read()
+        with open(env.path(target), 'wb') as f:
+            f.write(whole[:len(whole) // 2])
+    out2, val2 = ask(sp2)
+    if truncated:
+        with open(env.path(target), 'wb') as f:
+            f.write(whole)
     after2 = snapshot(rs)
     if out2 == 'hang':
         probs.append(('hang', 'second get_resource did not return'))
     elif out1 == 'returned':
         if out2 != 'returned' or val2 is not val1:
-            probs.append(('not-same-resource', f'asking again: {out2} {"another resource" if out2 == "returned" else val2}'))
+            probs.append(('not-same-resource', f'asking again (path spelled {SPELLINGS[sp1]}, then {SPELLINGS[sp2]}'
+                          + (', file truncated in between' if truncated else '') + f'): {out2} '
+                          f'{"another resource" if out2 == "returned" else val2}'))
         if not same_items(after1['resources'], after2['resources']):
             probs.append(('not-same-resource', 'asking again changed rset.resources'))
     else:
@@ -1194,10 +1256,11 @@ def registry_scenario(env, model, rng, timeout, mapped=False):
             else:
                 name = rng.choice(names)
                 registered = rs.resources.get(URI(env.path(name)).normalize())
+                how = rng.randrange(len(SPELLINGS))
                 try:
-                    got = watchdog(lambda: rs.get_resource(URI(env.path(name))), timeout)
+                    got = watchdog(lambda: rs.get_resource(URI(spelled(env, name, how))), timeout)
                     if registered is not None and got is not registered:
-                        problems.append(('not-same-resource', f'get_resource({name}) returned another resource than the '
+                        problems.append(('not-same-resource', f'get_resource({name}, path spelled {SPELLINGS[how]}) returned another resource than the '
                                          f'one registered for that URI ({len(registered.contents)} roots)'))
                 except Hang:
                     problems.append(('hang', f'get_resource({name}) on intact documents hangs'))
@@ -1516,7 +1579,11 @@ def replay(ctx, rep):
         env = Env(d, case['format'], files, make_mm(), register_mm=case.get('register_mm', True),
                   probes={k: base64.b64decode(v) for k, v in (case.get('probes') or {}).items()})
         env.restore = {k: base64.b64decode(v) for k, v in (case.get('restore') or {}).items()}
-        r = attempt(env, case['target'], data, case['priors'], 5.0, None, follow=True)
+        # the two asks of an attempt rotate over the spellings of the path: every pair is tried
+        for _ in range(len(SPELLING_PAIRS)):
+            r = attempt(env, case['target'], data, case['priors'], 5.0, None, follow=True)
+            if any(p[0] == clause for p in r['problems']):
+                break
         full = files.get(f'main.{case["format"]}', b'')
         if r['outcome'] == 'returned' and is_proper_prefix(data, full):
             r['problems'].append(('half-built', 'a strictly truncated document was loaded'))
